@@ -1,7 +1,7 @@
 /-
 Model of `asetypes/decimal.go` (C16): `NewDecimal`/`sanity`, `String`, `SetString`, `Cmp`,
-as the code is after commit "fix: Decimal.SetString rejects input it cannot represent, sanity
-rejects negative scale".  Text is `List Char` (= Go runes of a *valid* UTF-8 string; the line
+as the code is after the commits "fix: Decimal.SetString rejects input it cannot represent, sanity
+rejects negative scale" and "fix: Decimal.SetString ignores trailing zeros of the fraction".  Text is `List Char` (= Go runes of a *valid* UTF-8 string; the line
 protocol answers `bad-op` on invalid UTF-8 and the harness never sends it).
 
 Go standard-library behaviour that is *re-stated here by hand* (trusted base, tied to the real
@@ -14,6 +14,7 @@ functions only by the correspondence harness `go/cmd/harness/c16.go`):
 * `strings.Trim(right,"0123456789") != ""` — `right.any (!isDig ·)` (some rune is not an ASCII digit).
 * `len(right)`          — Go counts bytes; the model counts runes.  The two agree because the
                           comparison is only reached when `right` consists of ASCII digits.
+* `strings.TrimRight(right,"0")` in `SetString` — `trimRight0` (after the digits-only check).
 * `big.Int.SetString(t,10)` — `bigIntSetString`: optional single leading `+` or `-`, then at least
                           one ASCII digit, nothing else (no `_`, no spaces, no prefix); `-0` is 0.
 * `fmt.Sprintf("%0Ns", *big.Int)` — `zeroPad N (natDigits |i|)`: `big.Int.Format` pads the decimal
@@ -127,15 +128,17 @@ inductive Res | ok (i : Int) | err
   deriving DecidableEq, Repr
 
 /-- the part of `SetString` after the split -/
-def setParts (p s : Nat) (left right : Text) : Res :=
-  if right.any (fun c => !isDig c) then .err
-  else if right.length > s then .err
+def setParts (p s : Nat) (left right0 : Text) : Res :=
+  if right0.any (fun c => !isDig c) then .err
   else
-    match bigIntSetString (left ++ right) with
-    | none => .err
-    | some i =>
-      let i' := i * (10 : Int) ^ (s - right.length)
-      if i'.natAbs ≥ 10 ^ p then .err else .ok i'
+    let right := trimRight0 right0     -- trailing zeros of the fraction are dropped
+    if right.length > s then .err
+    else
+      match bigIntSetString (left ++ right) with
+      | none => .err
+      | some i =>
+        let i' := i * (10 : Int) ^ (s - right.length)
+        if i'.natAbs ≥ 10 ^ p then .err else .ok i'
 
 /-- `Decimal.SetString` for Precision `p`, Scale `s`: the new unscaled value or an error
 (`dec` untouched). -/
